@@ -30,3 +30,12 @@ package httppeeridauth
 //@ closure 0
 //@ callsite New#0 requires arg1 == key
 //@ noframe
+
+// the client's token cache never hands out an entry older than the configured TTL (an expired token is not a proof
+// of the server's identity any more: the caller must run a fresh handshake)
+//@ func (tm *tokenMap) get
+//@ prop C19
+//@ ensures result1 ==> old(has(tm.tokenMap, hostname)) && result0 == old(tm.tokenMap[hostname])
+//@ ensures result1 && ttl != 0 ==> called(Since, 0) && arg(Since, 0, 0) == result0.insertedAt && !(ret(Since, 0, 0) > ttl)
+//@ ensures called(Since, 0) && ret(Since, 0, 0) > ttl ==> !result1 && !has(tm.tokenMap, hostname)
+//@ noframe
